@@ -40,6 +40,8 @@ def _world(r):
         w['second'] = {nm: gen.host_value_spec(r, 2, floats=False) for nm in r.sample(['a', 'b', 'c', 'x', 'y', 'z'], r.randint(0, 4))}
     if r.random() < 0.3:
         w['cache'] = r.choice([{'kind': 'dict'}, {'kind': 'lru', 'bound': 2}])
+    if r.random() < 0.15:
+        w['names_kind'] = r.choice(['defaultdict', 'counter', 'ordered'])     # the host's mapping is a dict subclass
     return w
 
 
